@@ -547,6 +547,78 @@ class Body:
             stack.extend(self.succ[b])
         return False
 
+    def escape_path(self, start=None, avoiding=(), skip_edge=None):
+        """A normal path (list of blocks) from `start` (a Site; None = function entry) to a Return that passes none of the `avoiding`
+        sites and takes no edge for which skip_edge(from_block, to_block) is true; None if there is no such path."""
+        avoid_by_block = defaultdict(list)
+        for s in avoiding:
+            avoid_by_block[s.b].append(s.i)
+        if start is None:
+            b0, i0 = 0, -1
+        else:
+            b0, i0 = start.b, start.i
+        if any(i > i0 for i in avoid_by_block.get(b0, [])):
+            return None
+        parent = {b0: None}
+        stack = [b0]
+        first = True
+        while stack:
+            x = stack.pop()
+            if not first and avoid_by_block.get(x):
+                continue
+            first = False
+            if self.blocks[x]["term"]["t"] == "return":
+                path = []
+                while x is not None:
+                    path.append(x)
+                    x = parent[x]
+                return path[::-1]
+            for y in self.succ[x]:
+                if y in parent:
+                    continue
+                if skip_edge is not None and self.blocks[x]["term"]["t"] == "switch" and skip_edge(x, y):
+                    continue
+                parent[y] = x
+                stack.append(y)
+        return None
+
+    def natural_loops(self):
+        """[(header, frozenset(blocks))] for every back edge u->h (h dominates u) of the normal CFG, merged per header."""
+        if getattr(self, "_nloops", None) is not None:
+            return self._nloops
+        _ = self.idom
+        loops = {}
+        for u in sorted(self.live_blocks):
+            for h in self.succ[u]:
+                if self.block_dominates(h, u):
+                    body = loops.setdefault(h, {h})
+                    stack = [u]
+                    while stack:
+                        x = stack.pop()
+                        if x in body:
+                            continue
+                        body.add(x)
+                        stack.extend(p for p in self.pred[x] if p in self.live_blocks)
+        self._nloops = [(h, frozenset(b)) for h, b in sorted(loops.items())]
+        return self._nloops
+
+    def innermost_loop(self, site):
+        """(header, blocks) of the smallest natural loop containing the site's block, or None."""
+        best = None
+        for h, blocks in self.natural_loops():
+            if site.b in blocks and (best is None or len(blocks) < len(best[1])):
+                best = (h, blocks)
+        return best
+
+    def loop_exit_edges(self, blocks):
+        """[(from_block, to_block)] normal edges leaving the block set (targets that are `unreachable` ignored)."""
+        out = []
+        for x in sorted(blocks):
+            for y in self.succ[x]:
+                if y not in blocks and self.blocks[y]["term"]["t"] != "unreachable":
+                    out.append((x, y))
+        return out
+
     def in_loop(self, site):
         """is the site on a cycle of the normal CFG?"""
         b = site.b
